@@ -11,6 +11,7 @@ import signal
 import sys
 
 import hpack
+import hpack.table
 from hpack import Decoder, Encoder, HeaderTuple, NeverIndexedHeaderTuple
 from hpack.exceptions import (HPACKDecodingError, InvalidTableIndexError, InvalidTableSizeError,
                               OversizedHeaderListError)
@@ -34,12 +35,18 @@ def _alarm(*_):
 signal.signal(signal.SIGALRM, _alarm)
 
 
-def hx(b):
+TYPES = []     # type anomalies seen while printing the current line (C17: retained/returned objects must be bytes/str)
+
+
+def hx(b, want=bytes):
     if isinstance(b, str):
+        if want is not str:
+            TYPES.append("str")
         b = b.encode("utf-8", "surrogatepass")
-    t = "" if type(b) is bytes else "!" + type(b).__name__
+    elif type(b) is not want:
+        TYPES.append(type(b).__name__)
     b = bytes(b)
-    return (b.hex() if b else "-") + t
+    return b.hex() if b else "-"
 
 
 def unhex(s):
@@ -105,8 +112,11 @@ def show_headers(hs):
         c = "N" if type(h) is NeverIndexedHeaderTuple else "P" if type(h) is HeaderTuple else "?" + type(h).__name__
         if len(h) != 2:
             c += "!len%d" % len(h)
-        out.append(c + ":" + hx(h[0]) + ":" + hx(h[1]))
+        out.append(c + ":" + hx(h[0], SHOW_AS[0]) + ":" + hx(h[1], SHOW_AS[0]))
     return ",".join(out)
+
+
+SHOW_AS = [bytes]    # the type the fields of the current decode call must have (bytes in raw mode, str in text mode)
 
 
 def show_search(r):
@@ -117,6 +127,19 @@ def show_search(r):
 
 
 def main():
+    import logging
+    import os
+    if os.environ.get("HV_LOG") == "DEBUG":
+        # logging at DEBUG with a handler that formats every record (C20: must not change behaviour)
+        class Sink(logging.Handler):
+            def emit(self, record):
+                try:
+                    self.format(record)
+                except Exception:  # noqa: BLE001
+                    pass
+        lg = logging.getLogger("hpack")
+        lg.setLevel(logging.DEBUG)
+        lg.addHandler(Sink())
     tables, encs, decs, last = {}, {}, {}, {}
     coder = HuffmanEncoder(REQUEST_CODES, REQUEST_CODES_LENGTH)
     out = open(sys.argv[2], "w")
@@ -187,7 +210,120 @@ def main():
             r = call(f, lambda _: "") + " " + show_dec(d)
         elif c == "ddec":
             d = decs[w[1]]
+            SHOW_AS[0] = bytes if w[2] == "1" else str
             r = call(lambda: d.decode(unhex(w[3]), raw=(w[2] == "1")), show_headers) + " " + show_dec(d)
+        elif c == "ddecb":
+            # ddecb <id> <raw> <buftype: B bytes | A bytearray | M memoryview of a bytearray> <hex>
+            # decode from a caller-owned buffer, then check that nothing of it is retained
+            # (reference count back to what it was, a bytearray can be resized again) and
+            # overwrite it; later commands show whether the decoder still depended on it.
+            d = decs[w[1]]
+            base = unhex(w[4]) if w[3] == "B" else bytearray(unhex(w[4]))
+            arg = memoryview(base) if w[3] == "M" else base
+            SHOW_AS[0] = bytes if w[2] == "1" else str
+            import gc
+            rc0 = sys.getrefcount(base)
+            r = call(lambda: d.decode(arg, raw=(w[2] == "1")), show_headers) + " " + show_dec(d)
+            gc.collect()
+            rc1 = sys.getrefcount(base)       # (for M the caller's own memoryview is still alive, as at rc0)
+            resize = "n/a"
+            if w[3] == "M":
+                arg.release()
+            if w[3] in ("A", "M"):
+                try:
+                    base.extend(b"zz")
+                    del base[-2:]
+                    resize = "ok"
+                except BufferError:
+                    resize = "BufferError"
+                for k in range(len(base)):
+                    base[k] = 0x5a
+            r += " | RC %d %s" % (rc1 - rc0, resize)
+        elif c == "eencf":
+            # eencf <id> <huff> <container L|I|D> <form>...   form = kind,<b|t>namehex,<b|t>valuehex
+            e = encs[w[1]]
+
+            def pv(tok):
+                raw = unhex(tok[1:])
+                return raw.decode("utf-8") if tok[0] == "t" else raw
+            hs = []
+            for tok in w[4:]:
+                kind, n, v = tok.split(",")
+                n, v = pv(n), pv(v)
+                if kind == "2":
+                    hs.append((n, v))
+                elif kind == "3T":
+                    hs.append((n, v, True))
+                elif kind == "3F":
+                    hs.append((n, v, False))
+                elif kind == "3N":
+                    hs.append((n, v, None))
+                elif kind == "H":
+                    hs.append(HeaderTuple(n, v))
+                elif kind == "N":
+                    hs.append(NeverIndexedHeaderTuple(n, v))
+            if w[3] == "D":
+                arg = dict((h[0], h[1]) for h in hs)
+            elif w[3] == "I":
+                arg = (h for h in hs)
+            else:
+                arg = hs
+
+            def f():
+                b = e.encode(arg, huffman=(w[2] == "1"))
+                last[w[1]] = b
+                return b
+            last[w[1]] = None
+            r = call(f, hx) + " " + show_enc(e)
+        elif c == "cost":
+            # cost <max_list> <raw> <hex>: decode on a FRESH Decoder under sys.settrace, three times;
+            # report executed line events inside hpack, the largest `shift` seen in decode_integer,
+            # the types of the buffer argument of every helper, and the best CPU time
+            data = unhex(w[3])
+            SHOW_AS[0] = bytes if w[2] == "1" else str
+            r = None
+            best = None
+            stats = {"lines": 0, "maxshift": 0, "argtypes": set()}
+
+            def tracer(frame, event, arg):
+                co = frame.f_code
+                if "hpack" not in co.co_filename:
+                    return None
+                if event == "call":
+                    if co.co_name in ("decode_integer", "_decode_literal", "_decode_indexed", "_update_encoding_context",
+                                      "decode_huffman") and co.co_argcount >= 1:
+                        names = co.co_varnames[:co.co_argcount]
+                        arg0 = frame.f_locals.get(names[1] if names[0] == "self" and len(names) > 1 else names[0])
+                        stats["argtypes"].add(co.co_name + ":" + type(arg0).__name__)
+                        if isinstance(arg0, (bytes, bytearray)):
+                            stats["copied"] = stats.get("copied", 0) + len(arg0)
+                    return tracer
+                if event == "line":
+                    stats["lines"] += 1
+                    if co.co_name == "decode_integer":
+                        sh = frame.f_locals.get("shift")
+                        if isinstance(sh, int) and sh > stats["maxshift"]:
+                            stats["maxshift"] = sh
+                return tracer
+            import time
+            for rep in range(3):
+                d = Decoder(max_header_list_size=zp(w[1]))
+                t0 = time.process_time()
+                rr = call(lambda: d.decode(data, raw=(w[2] == "1")), show_headers) + " " + show_dec(d)
+                dt = time.process_time() - t0
+                best = dt if best is None or dt < best else best
+                if r is None:
+                    r = rr
+            d = Decoder(max_header_list_size=zp(w[1]))
+            sys.settrace(tracer)
+            try:
+                call(lambda: d.decode(data, raw=(w[2] == "1")), show_headers)
+            finally:
+                sys.settrace(None)
+            r += " | COST lines=%d maxshift=%d argtypes=%s copied=%d t=%.6f" % (
+                stats["lines"], stats["maxshift"], "+".join(sorted(stats["argtypes"])) or "-", stats.get("copied", 0), best)
+        elif c == "snapshot":
+            r = "ok:" + snapshot()
         elif c == "pipe":
             # decode, on decoder w[2], the last block produced by encoder w[1]
             d = decs[w[2]]
@@ -195,11 +331,32 @@ def main():
             if blk is None:
                 r = "skip " + show_dec(d)
             else:
+                SHOW_AS[0] = bytes if w[3] == "1" else str
                 r = call(lambda: d.decode(blk, raw=(w[3] == "1")), show_headers) + " " + show_dec(d)
         else:
             r = "err:BADCOMMAND " + line.strip()
+        if TYPES:
+            r += " | TY " + ",".join(sorted(set(TYPES)))
+            del TYPES[:]
         out.write(r + "\n")
     out.close()
+
+
+def snapshot():
+    """digest of every object instances could share"""
+    import hashlib
+    import hpack.huffman_constants as hc
+    import hpack.huffman_table as ht
+    import hpack.hpack as hp
+    h = hashlib.sha256()
+    for o in (HeaderTable.STATIC_TABLE, HeaderTable.STATIC_TABLE_LENGTH, HeaderTable.DEFAULT_SIZE,
+              sorted((k, v[0], sorted(v[1].items())) for k, v in HeaderTable.STATIC_TABLE_MAPPING.items()),
+              hc.REQUEST_CODES, hc.REQUEST_CODES_LENGTH, ht.HUFFMAN_TABLE, hp._PREFIX_BIT_MAX_NUMBERS,
+              hp.INDEX_NONE, hp.INDEX_NEVER, hp.INDEX_INCREMENTAL, hp.DEFAULT_MAX_HEADER_LIST_SIZE,
+              sorted(k for k in vars(hp) if not k.startswith("__")), sorted(k for k in vars(HeaderTable) if not k.startswith("__")),
+              sorted(k for k in vars(ht) if not k.startswith("__")), sorted(k for k in vars(hpack.table) if not k.startswith("__"))):
+        h.update(repr(o).encode())
+    return h.hexdigest()[:24]
 
 
 def hx_ba(b):
